@@ -13,8 +13,8 @@ func init() {
 	register(&Property{
 		ID:        "C14",
 		Technique: "static analysis: ORDER/FOLLOW rules on the backup request, the checkpoint worker and the restore path; who-may-call enumeration; guard implication by truth table on the purge decision; argument provenance on canonical terms",
-		Explanation: "Decides: (B1) pending in-memory caches are flushed before the checkpoint is requested; (B2) the checkpoint is started inside the apply loop: beginSnapshot asks for it outside its goroutine and is called only from maybeTriggerSnapshot <- applyCommits, GetSnapshot returns only after the checkpoint was started (WaitReady), the result is read only after completion (GetResult waits for done and nothing else), the worker signals started from the engine checkpoint and closes done on every exit; (B3) copying into place never truncates an existing (possibly hard-linked) destination: it is unlinked before it is created; the restore removes and creates files in the data directory only; (B4) a checkpoint is purged only when its index is below the latest snapshot index, which is read from the atomically updated field; (B5) restore closes the engine before touching files and re-opens it after the copies; a kept sst file was verified identical; reopening re-creates the HLL cache, the index manager and the default write batch instead of keeping those bound to the replaced engine; (B2, engines) the mem engine notifies started only after its iterator pinned the view and saves through that iterator; the rocksdb/pebble wrappers arm their notification only under the engine lock; (B4) nothing purges checkpoints inside a restore before the engine is reopened.",
-		NotDecided: "the rocksdb and pebble checkpoints notify \"started\" from a 20 ms timer because those engines do not report when their view is pinned: whether 20 ms suffices is a timing question no static rule decides (stated in DESIGN.md); equality of the restored data with the state at index i (engine behaviour), rsync, repeated/interleaved backups' timing, that the HLL cache flush is complete (cache internals).",
+		Explanation: "Decides: (B1) pending in-memory caches are flushed before the checkpoint is requested; (B2) the checkpoint is started inside the apply loop: beginSnapshot asks for it outside its goroutine and is called only from maybeTriggerSnapshot <- applyCommits, GetSnapshot returns only after the checkpoint was started (WaitReady), the result is read only after completion (GetResult waits for done and nothing else), the worker signals started from the engine checkpoint and closes done on every exit; (B3) copying into place never truncates an existing (possibly hard-linked) destination: it is unlinked before it is created; the restore removes and creates files in the data directory only; (B4) a checkpoint is purged only when its index is below the latest snapshot index, which is read from the atomically updated field; (B5) restore closes the engine before touching files and re-opens it after the copies; a kept sst file was verified identical; reopening re-creates the HLL cache, the index manager and the default write batch instead of keeping those bound to the replaced engine; (B2, engines) the mem engine notifies started only after its iterator pinned the view and saves through that iterator; the pebble wrapper notifies only after Checkpoint returned (pebble copies its WAL whole at the end); the rocksdb wrapper arms its notification only under the engine lock; (B4) nothing purges checkpoints inside a restore before the engine is reopened.",
+		NotDecided: "the rocksdb checkpoint notifies \"started\" from a 20 ms timer because rocksdb does not report when its view is pinned (it is fixed when CreateCheckpoint lists the live files, at its start): whether 20 ms suffices is a timing question no static rule decides (stated in DESIGN.md); equality of the restored data with the state at index i (engine behaviour), rsync, repeated/interleaved backups' timing, that the HLL cache flush is complete (cache internals).",
 		Assumptions: []string{"path conditions as in C01"},
 		Run: runC14,
 	})
@@ -140,15 +140,32 @@ func runC14(c *Ctx) {
 		// creating the iterator is what pins the view: it takes the engine read lock and a read transaction/snapshot
 		r.Require("C14-B2", u, an.AnyCall().Where("engine read lock", func(u *an.Unit, s *an.Site) bool { return strings.HasSuffix(an.CalleeName(s), "RWMutex).RLock") }), "the iterator must hold the engine against close/reopen")
 	}
-	for _, fn := range []string{"engine.(*rockEngCheckpoint).Save", "engine.(*pebbleEngCheckpoint).Save"} {
+	// pebble copies its WAL files whole at the end of Checkpoint: whatever is written before Checkpoint returns may be
+	// in the checkpoint, so the notification must come after it (a timer is not enough; found and fixed, see known_findings)
+	if u := c.unit("C14-B2", "engine.(*pebbleEngCheckpoint).Save"); u != nil {
+		cl := an.AnyCall().Where("close(notify)", func(u *an.Unit, s *flow.Site) bool { return s.Builtin == "close" && u.ArgTerm(s, 0) == "p1" })
+		ck := an.AnyCall().Where("pebble Checkpoint", func(u *an.Unit, s *flow.Site) bool { return strings.HasSuffix(an.CalleeName(s), "pebble.(*DB).Checkpoint") })
+		r.Order("C14-B2", u, cl, []an.M{ck}, an.OrderOpts{Min: 1})
+		n := 0
+		for _, l := range u.Lits() {
+			for _, s := range l.Sites {
+				if s.Kind == flow.SCall && s.Builtin == "close" {
+					n++
+				}
+			}
+		}
+		r.Check("C14-B2", u.Name+": the notification is not sent from a timer or goroutine", "", n == 0 && len(u.Match(an.Call("time.AfterFunc"))) == 0, fmt.Sprintf("%d close calls in closures", n))
+	}
+	for _, fn := range []string{"engine.(*rockEngCheckpoint).Save"} {
 		u := c.unit("C14-B2", fn)
 		if u == nil {
 			continue
 		}
-		// these engines cannot report when the view is pinned; the notification is armed (timer) only after the
-		// engine lock is held and the engine is known open, and never fires on the closed-engine path
+		// rocksdb fixes the WAL sizes it copies when CreateCheckpoint lists the live files, right at its start, and
+		// cannot report that moment; the notification is armed (timer) only after the engine lock is held and the
+		// engine is known open, and never fires on the closed-engine path. Whether the timer is long enough is not decided.
 		arm := an.Call("time.AfterFunc")
-		lock := an.AnyCall().Where("engine read lock", func(u *an.Unit, s *an.Site) bool { return strings.HasSuffix(an.CalleeName(s), ".RLock") && !s.Deferred })
+		lock := an.AnyCall().Where("engine read lock", func(u *an.Unit, s *flow.Site) bool { return strings.HasSuffix(an.CalleeName(s), ".RLock") && !s.Deferred })
 		r.Order("C14-B2", u, arm, []an.M{lock}, an.OrderOpts{Min: 1})
 		n := 0
 		for _, l := range u.Lits() {
